@@ -64,3 +64,18 @@ Proof.
   - intros t nso. exact (lookup_underscore tbl t nso).
 Qed.
 Print Assumptions c10_spellings.
+
+(* BEGIN PINS (tools/repin.py) *)
+From WTP Require Import Gen.GenPins.
+Module Pins.
+Import String.
+(* The models of this property were transcribed from: core.py:Wtp.add_page, core.py:Wtp.get_page, core.py:Wtp.get_page_resolve_redirect.
+   Gen/GenPins.v holds the digests of these functions in the current source (translate/pins.py: syntax tree without
+   docstrings, comments and layout).  A different digest means that the model is no longer known to describe the
+   code; the check then reports the broken tie and looks for a failing input. *)
+Theorem c10_models_describe_the_current_source :
+  (pin_add_page, pin_get_page, pin_get_page_resolve_redirect) = ("fd312b2ac3888147", "1eb57c52c10c59be", "4e64616f9480d3fd")%string.
+Proof. reflexivity. Qed.
+Print Assumptions c10_models_describe_the_current_source.
+End Pins.
+(* END PINS *)
